@@ -10,7 +10,7 @@ R6 line tables. R7 compiled witness for the file/rank constants. WHO: only
 the builders write the tables."""
 from facts import AnalysisBroken
 from prog import walk, kids, short, access_kind
-from rules.common import strip_casts, const_of, expr_key
+from rules.common import guard_facts, strip_casts, const_of, expr_key
 from rules.witness import compile_witness
 
 LEVEL = 'proof'
@@ -191,9 +191,9 @@ def check(ctx):
                '%s picks the nearest blocker (lsb for rays stepping to higher squares, msb otherwise) and returns the ray '
                'up to and including it: %s' % (short(f.name), why), site=f.loc())
     ctx.ob('C11.R3.sibling-agreement', 'get_attack_in_ray~attack_in_ray',
-           _body_key(gar) == _body_key(air),
-           'the table builder\'s ray walk and the move generator\'s ray walk are the same function up to naming',
-           site=air.loc())
+           _ray_table(gar) is not None and _ray_table(gar) == _ray_table(air) and _masked_first(gar) == _masked_first(air),
+           'the table builder\'s ray walk and the move generator\'s ray walk choose lsb/msb for the same rays, mask the blockers with the ray '
+           'first and return the same shape (%s / %s)' % (_ray_table(gar), _ray_table(air)), site=air.loc())
 
     # ---- R4 mask builders and init order ---------------------------------------------------------
     rm = p.fn('engine::(anonymous namespace)::init_rook_mask')
@@ -538,6 +538,38 @@ def _ray_attack_shape(f, dvals):
     if not ok_ret:
         return False, 'return is not RAYS[ray][sq] & ~RAYS[ray][blocker]'
     return True, 'decision table over 8 rays agrees with direction signs'
+
+
+def _ray_table(f):
+    """['lsb'|'msb'] chosen for ray 0..7, or None"""
+    params = {q['name']: q['id'] for q in f.params}
+    if 'ray' not in params:
+        return None
+    for n in f.all_nodes():
+        ch = n.get('ch') or []
+        if n['k'] == 'IfStmt' and len(ch) >= 3 and ch[2]:
+            t = [short(c['n']) for x in walk(ch[1]) for c in [x.get('callee')] if c and short(c['n']) in ('lsb', 'msb')]
+            e = [short(c['n']) for x in walk(ch[2]) for c in [x.get('callee')] if c and short(c['n']) in ('lsb', 'msb')]
+            if t and e:
+                out = []
+                for ray in range(8):
+                    v = _eval_cond(ch[0], params['ray'], ray)
+                    if v is None:
+                        return None
+                    out.append(t[0] if v else e[0])
+                return out
+    return None
+
+
+def _masked_first(f):
+    """the blockers are intersected with the ray before the nearest one is looked for, and an empty intersection returns the whole ray"""
+    from rules.norm import Norm
+    nm = Norm(f)
+    picks = [x for x in f.all_nodes() if x.get('callee') and short(x['callee']['n']) in ('lsb', 'msb')]
+    args = {nm.s(kids(x)[1]) for x in picks}
+    early = [r for r in f.all_nodes() if r['k'] == 'ReturnStmt' and nm.s(kids(r)[0]) == 'RAYS[ray][sq]']
+    g = [nm.facts(guard_facts(f, r)) for r in early]
+    return (sorted(args), [sorted(map(str, x)) for x in g if x is not None])
 
 
 def _eval_cond(c, var_id, val):
